@@ -429,6 +429,20 @@ structure MoveOK (s : St) (nodes0 : Mask) (r : Req) (nodes : Mask) : Prop where
   prio : r.prio ≤ 32766
   touch : touches nodes0 r.zone
 
+theorem mem_sortBy {α} (lt : α → α → Bool) (l : List α) (x : α) : x ∈ sortBy lt l ↔ x ∈ l :=
+  (sortBy_perm lt l).mem_iff
+
+theorem checkOvercommit_touch (nodes0 : Mask) (s : St) : ∀ z ∈ s.checkOvercommit nodes0, touches nodes0 z.1 := by
+  intro z hz
+  unfold St.checkOvercommit at hz
+  obtain ⟨z0, hz0, e⟩ := List.mem_map.1 hz
+  rw [mem_sortBy, mem_sortBy] at hz0
+  obtain ⟨_, hf⟩ := List.mem_filter.1 hz0
+  subst e
+  simp only [Bool.and_eq_true, Bool.or_eq_true, beq_iff_eq, decide_eq_true_eq] at hf
+  unfold touches
+  exact hf.1
+
 section Combinator
 variable (nodes0 : Mask) (P : St → Prop)
 variable (hamb : ∀ s x, P s → P { s with ambig := x })
@@ -500,6 +514,67 @@ theorem ocCell_pres (s : St) (hnd : IdsNodup s) (hp : P s) (oc : List (Mask × I
   · intro acc z hz h
     exact zoneShrinkUsage_pres nodes0 P hamb hmove acc.1 h.1 h.2 z.1 (hoc z hz) _ _ hl _
   · exact ⟨hnd, hp⟩
+
+/-- accumulator invariant of the double loop -/
+def AccOK (acc : St × List (Mask × Int) × Int × Bool × Nat) : Prop :=
+  IdsNodup acc.1 ∧ P acc.1 ∧ ∀ z ∈ acc.2.1, touches nodes0 z.1
+
+theorem ocStep_pres (acc : St × List (Mask × Int) × Int × Bool × Nat) (c : Int × Nat) (hc : c.1 ≤ 32766)
+    (h : AccOK nodes0 P acc) : AccOK nodes0 P (St.ocStep nodes0 acc c) := by
+  unfold St.ocStep
+  split
+  · exact h
+  · simp only []
+    split
+    · exact h
+    · have hcell := ocCell_pres nodes0 P hamb hmove acc.1 h.1 h.2.1 acc.2.1 h.2.2 c.1 hc
+      refine ⟨(hcell _).1, hamb _ _ (hcell _).2, ?_⟩
+      exact checkOvercommit_touch nodes0 _
+
+theorem ocPass_pres (s : St) (hnd : IdsNodup s) (hp : P s) (oc : List (Mask × Int)) (hoc : ∀ z ∈ oc, touches nodes0 z.1) :
+    IdsNodup (s.ocPass nodes0 oc).1 ∧ P (s.ocPass nodes0 oc).1 ∧ ∀ z ∈ (s.ocPass nodes0 oc).2.1, touches nodes0 z.1 := by
+  unfold St.ocPass
+  simp only []
+  have := foldl_inv_mem (AccOK nodes0 P) (St.ocStep nodes0)
+    (allowedPrios.flatMap (fun p => expandTypes.map (fun e => (p, e)))) (s, oc, 0, false, 0)
+    (by
+      intro a c hc h
+      apply ocStep_pres nodes0 P hamb hmove a c _ h
+      obtain ⟨p, hp, hm⟩ := List.mem_flatMap.1 hc
+      obtain ⟨e, _, he⟩ := List.mem_map.1 hm
+      subst he
+      simp only [allowedPrios, List.mem_cons, List.not_mem_nil, or_false] at hp
+      rcases hp with h | h | h <;> subst h <;> simp)
+    ⟨hnd, hp, hoc⟩
+  exact this
+
+theorem resolveOvercommit_pres :
+    ∀ (fuel : Nat) (s : St) (oc : List (Mask × Int)), IdsNodup s → P s → (∀ z ∈ oc, touches nodes0 z.1) →
+      IdsNodup (s.resolveOvercommit nodes0 fuel oc).1 ∧ P (s.resolveOvercommit nodes0 fuel oc).1 := by
+  intro fuel
+  induction fuel with
+  | zero => intro s oc hnd hp _; simpa [St.resolveOvercommit] using ⟨hnd, hp⟩
+  | succ n ih =>
+    intro s oc hnd hp hoc
+    unfold St.resolveOvercommit
+    have hpass := ocPass_pres nodes0 P hamb hmove s hnd hp oc hoc
+    simp only []
+    split
+    · exact ⟨hpass.1, hpass.2.1⟩
+    · split
+      · exact ⟨hpass.1, hpass.2.1⟩
+      · exact ih _ _ hpass.1 hpass.2.1 hpass.2.2
+
+/-- **The combinator.** A predicate closed under the single primitive of overcommit resolution
+(moving a current user of an overcommitted zone that intersects `nodes0`, of priority below
+Reservation, to a strict superset of its zone) is preserved by `handleOvercommit`. -/
+theorem handleOvercommit_pres (s : St) (hnd : IdsNodup s) (hp : P s) :
+    IdsNodup (s.handleOvercommit nodes0).1 ∧ P (s.handleOvercommit nodes0).1 := by
+  unfold St.handleOvercommit
+  simp only []
+  split
+  · exact ⟨hnd, hamb _ _ hp⟩
+  · exact resolveOvercommit_pres nodes0 P hamb hmove _ _ _ hnd (hamb _ _ hp) (checkOvercommit_touch nodes0 s)
 
 end Combinator
 
